@@ -50,7 +50,7 @@ def run(oc, tier, seed, model_available, escalate):
         pars = []
         for algo in (1, 2, 3):
             man = cu.manager(algo, n, k0)
-            with common.captured():
+            with common.quiet():
                 pars.append(bytes(man.encode(msg, **kw)))
             lines.append("enc %d %d %d %d %s" % (algo, n, k0, k if percall else 0, hx(msg)))
             impl.append(hx(pars[-1]))
@@ -61,7 +61,7 @@ def run(oc, tier, seed, model_available, escalate):
                                   "what": "codecs 1, 2 and 3 do not produce byte-identical parity"})
         # each codec accepts the parity of the others
         a, b = rng.sample([1, 2, 3], 2)
-        with common.captured():
+        with common.quiet():
             okx = bool(cu.manager(a, n, k0).check(bytearray(msg), bytearray(pars[b - 1]), **kw))
         if not okx:
             oc.violations.append({"input": {"n": n, "k_ctor": k0, "msg": msg.hex(), "checker": a, "generator": b},
@@ -85,6 +85,11 @@ def run(oc, tier, seed, model_available, escalate):
         roots = {"orig": os.path.join(d, "t"), "moved": os.path.join(d, "a much longer directory name", "t_moved"), "touched": os.path.join(d, "u")}
         for r in roots.values():
             eu.write_tree(r, tree)
+        # the same tree reached through a symbolic link in the path (a relocation as far as the tool can tell)
+        os.makedirs(os.path.join(d, "real", "deeper"), exist_ok=True)
+        eu.write_tree(os.path.join(d, "real", "deeper", "t"), tree)
+        os.symlink(os.path.join(d, "real", "deeper"), os.path.join(d, "lnk"))
+        roots["symlinked"] = os.path.join(d, "lnk", "t")
         for r_, _ds, fs in os.walk(roots["touched"]):
             for f in fs:
                 os.utime(os.path.join(r_, f), (1, 1))
